@@ -83,7 +83,7 @@ def parse_classify(ans):
     for e in v:
         out[e[0]] = e[1:]
     flags = {k: out[k][0] == 'True' for k in ('convof', 'bound_names_reserved', 'free_names_resolved', 'fixed_names_unused',
-                                               'fixed_names_not_variants')}
+                                               'fixed_names_not_variants', 'converter_roots_listed')}
     return flags, out['converter'], out['transpiler'], [tuple(p) for p in out['classes']]
 
 
@@ -310,7 +310,7 @@ def _check(run, only_case, facts0, voc, fixed_names, quick, procs, parent):
         for c in corpus:
             groups.append({'id': gid, 'cases': [dict(c['case'], role='corpus', word=c['file'])], 'role': 'corpus', 'kind': 'corpus', 'corpus': c})
             gid += 1
-        bases, info = base_programs(run, 40 if quick else 200, 40 if quick else 200, 8 if quick else 12)
+        bases, info = base_programs(run, 40 if quick else 120, 40 if quick else 120, 8 if quick else 12)
         run.cov['skeleton_space'] = info
         base_cases = []
         for b in bases:
@@ -320,7 +320,7 @@ def _check(run, only_case, facts0, voc, fixed_names, quick, procs, parent):
         for k in range(0, len(base_cases), 4):
             groups.append({'id': gid, 'cases': base_cases[k:k + 4], 'role': 'base', 'kind': 'base'})
             gid += 1
-        adv = build_groups(run, bases, voc, 1 if quick else 4)
+        adv = build_groups(run, bases, voc, 1 if quick else 3)
         # lambda entities (visit_Lambda / lscope / ag__lam): fixed templates, every vocabulary word
         lam_words = sorted(set(voc) | {'ag__lam', 'ag__lam_1', 'lscope_1'})
         for kind in sorted(N.LAMBDA_TEMPLATES):
@@ -354,7 +354,8 @@ def _check(run, only_case, facts0, voc, fixed_names, quick, procs, parent):
         lines.append(replay_line(r))
         lines.append(classify_line(case, r, facts))
     answers = run.drive(lines) if run.driver_ok and lines else None
-    dis_replay, dis_conv, dis_reads, dis_facts = [], [], [], []
+    dis_replay, dis_conv, dis_reads, dis_facts, dis_thm = [], [], [], [], []
+    n_hyp_hold = 0
     judged = []
     for k, (g, case, r, facts) in enumerate(flat):
         pairs = None
@@ -374,6 +375,13 @@ def _check(run, only_case, facts0, voc, fixed_names, quick, procs, parent):
                     lacking = [[s[0], sorted(set(facts['read']) - set(s[1]))] for s in r['symbols']
                                if level_of(s) == 'converter' and not set(facts['read']) <= set(s[1])]
                     dis_reads.append({'case': case, 'requests_not_reserving_all_body_reads': lacking[:4]})
+                # instance of C11_disjoint_partial on the REAL output: when all its hypotheses hold of this program and this
+                # recorded request sequence, no name the real namer returned may be a user name
+                if all(flags.values()) and not r.get('load_error'):
+                    n_hyp_hold += 1
+                    clash = [f for f in judge(case, dict(r, mismatches=[], convert_error=None), facts, set(), []) if f[0].startswith('(i)')]
+                    if clash:
+                        dis_thm.append({'case': case, 'clash': clash[0][0]})
         if r.get('body_referenced') is not None and sorted(r['body_referenced']) != sorted(facts['read']):
             dis_facts.append({'case': case, 'activity': sorted(r['body_referenced']), 'harness': facts['read']})
         judged.append((g, case, r, facts, pairs))
@@ -512,6 +520,10 @@ def _check(run, only_case, facts0, voc, fixed_names, quick, procs, parent):
         run.oblige('correspondence:c11.replay(conversions)', 'correspondence', not dis_replay, json.dumps(dis_replay[:2], default=str)[:1800])
         run.oblige('correspondence:c11.classify(parse)', 'correspondence', not dis_conv, json.dumps(dis_conv[:2], default=str)[:1800])
         run.oblige('correspondence:reserved-covers-body-reads', 'correspondence', not dis_reads, json.dumps(dis_reads[:2], default=str)[:1800])
+        run.oblige('checker:C11_disjoint_partial-instances-on-real-output', 'checker', not dis_thm, json.dumps(dis_thm[:2], default=str)[:1800])
+        run.cov['conversions_satisfying_all_hypotheses'] = n_hyp_hold
+        for d in dis_thm[:3]:
+            run.fail('hypotheses of C11_disjoint_partial hold but ' + d['clash'], d['case'], None)
         run.cov['conversions_replayed'] = len(flat)
         # tables the driver was built with = what the translator reads now
         tb = {e[0]: e[1:] for e in parse_sexp(run.drive(['c11.tables'])[0])}
